@@ -27,6 +27,8 @@ func Lookup(id string) sim.Property {
 		return C17{}
 	case "C01":
 		return C01{}
+	case "C04":
+		return C04{}
 	case "C08":
 		return C08{}
 	}
